@@ -37,6 +37,15 @@ def _entries(prog):
         if isinstance(d, FuncInfo):
             ents.append((d.qname, c.qname, dec_allowed, 'pdu.DecodeError only'))
     ents.append(('nfc.llcp.pdu.Parameter.decode', None, dec_allowed, 'pdu.DecodeError only'))
+    # display methods of decoded PDUs run eagerly in the link loop (`"enqueue {0}".format(rcvd_pdu)`, `"     " + str(p)`), whatever
+    # the log level: they must be total for every decodable PDU
+    seen = set()
+    for c in c11.pdu_classes(prog) + [prog.cls('nfc.llcp.pdu.ProtocolDataUnit')]:
+        for name in ('__str__', '__repr__', '__format__'):
+            d = prog.lookup(c, name)
+            if isinstance(d, FuncInfo) and (d.qname, c.qname) not in seen:
+                seen.add((d.qname, c.qname))
+                ents.append((d.qname, c.qname, (lambda e: False), 'nothing (evaluated in the link loop for every received PDU)'))
     # NFC-DEP decoders
     dep_allowed = lambda e: e in ('nfc.clf.ProtocolError', 'nfc.clf.TransmissionError')      # noqa: E731
     for q, root in (('nfc.dep.Initiator.decode_frame', 'nfc.dep.Initiator'), ('nfc.dep.Target.decode_frame', 'nfc.dep.Target')):
@@ -64,6 +73,17 @@ ARG_OK = {
 }
 
 
+# bytes.decode / str.encode of peer supplied text on a receiver the resolver cannot type (PDU fields, payloads): strict codecs raise
+TEXT_CATALOG = {'decode': ['UnicodeDecodeError'], 'encode': ['UnicodeEncodeError']}
+
+
+def _harmless_text(it):
+    """hexlify(x).decode() and friends: the receiver is pure ASCII by construction."""
+    t = it.site_text
+    return it.origin == 'catalog' and it.exc in ('UnicodeDecodeError', 'UnicodeEncodeError') and \
+        t.startswith(('hexlify(', 'binascii.hexlify(', 'b2a_hex(', 'binascii.b2a_hex(', 'str(', 'repr('))
+
+
 def rule_escape(report, prog, res):
     from . import c07buf
     implicit_sites = {}
@@ -84,9 +104,11 @@ def rule_escape(report, prog, res):
     for q, root, allowed, what in _entries(prog):
         f = prog.func(q)
         ctx = Ctx(prog.cls(root)) if root else Ctx(None)
-        esc = Escape(prog, res, boundaries=BOUNDARIES, implicit=implicit)
+        esc = Escape(prog, res, boundaries=BOUNDARIES, implicit=implicit, method_catalog=TEXT_CATALOG)
         n += 1
         for it in items_sorted(esc.esc(f, ctx)):
+            if _harmless_text(it):
+                continue
             if allowed(it.exc):
                 continue
             bad.setdefault((it.exc, it.site_func, it.site_text.split(' [')[0]), []).append((q, what, it, f))
@@ -143,9 +165,11 @@ def rule_escape(report, prog, res):
     for root, m, allowed, what, bnd in specs:
         c = prog.cls(root)
         f = prog.lookup(c, m)
-        esc = Escape(prog, res, boundaries=bnd, implicit=implicit, catalog={'ndef.message_decoder': ['ndef.DecodeError'], 'ndef.message_encoder': ['ndef.EncodeError']})
+        esc = Escape(prog, res, boundaries=bnd, implicit=implicit, method_catalog=TEXT_CATALOG, catalog={'ndef.message_decoder': ['ndef.DecodeError'], 'ndef.message_encoder': ['ndef.EncodeError']})
         n += 1
         for it in items_sorted(esc.esc(f, Ctx(c))):
+            if _harmless_text(it):
+                continue
             if it.exc in allowed:
                 continue
             if (it.exc, it.site_func) in ARG_OK and it.site_func == f.qname:
@@ -416,6 +440,8 @@ def run(report, prog, tier):
     rule_loops(report, prog)
     rule_struct(report, prog, res)
     rule_client_waits(report, prog)
+    from .c04 import rule_deadlines
+    rule_deadlines(report, prog, rule='C07-R3')
     report.trusted += ['interface summaries of ContactlessFrontend.exchange / sense / listen (C13)',
                        'ndeflib raises ndef.DecodeError / ndef.EncodeError', 'user callbacks (on-connect, read_func, process_*_request overrides) are opaque']
     report.assumptions += ['implicit exceptions are modelled for the catalogue of the buffer rules only (index, pop, fixed-arity unpack, struct size, '
